@@ -66,7 +66,7 @@ func c18Setup(prm c18Params) func(c *fw.Ctx, name string) explore.Setup {
 				at := func(d time.Duration) time.Time { return vctx.Epoch.Add(time.Duration(w.Now) + d) }
 				nReads := 0
 				for _, op := range prm.Seq {
-					if op == "R" {
+					if op == "R" || op == "Rp" {
 						nReads++
 					}
 				}
@@ -98,11 +98,17 @@ func c18Setup(prm c18Params) func(c *fw.Ctx, name string) explore.Setup {
 						vtime.Sleep(time.Second)
 					case "S2":
 						vtime.Sleep(2 * time.Second)
-					case "R", "Rn":
+					case "R", "Rn", "Rp":
 						cl := &c18Call{op: op, t0: w.Now, dl: rdl, dlSetAt: rdlSet, closedPrev: st.p.Closed}
 						st.calls = append(st.calls, cl)
 						var b [8]byte
-						cl.n, cl.err = nc.Read(b[:])
+						if op == "Rp" {
+							// a buffer smaller than the 3-byte messages: the adapter keeps the
+							// message reader for the next call
+							cl.n, cl.err = nc.Read(b[:2])
+						} else {
+							cl.n, cl.err = nc.Read(b[:])
+						}
 						cl.t1 = w.Now
 					case "W":
 						cl := &c18Call{op: op, t0: w.Now, dl: wdl, dlSetAt: wdlSet, closedPrev: st.p.Closed}
@@ -352,13 +358,13 @@ func c18Scenarios(tier string) []scenario {
 		cfg = explore.Config{P: 3, T: 2, E: 0, Horizon: 60e9}
 		depth = 4
 	}
-	ops := []string{"RDp", "RD1", "RD0", "WDp", "WD1", "WD0", "R", "Rn", "W", "S1", "S2"}
+	ops := []string{"RDp", "RD1", "RD0", "WDp", "WD1", "WD0", "R", "Rn", "Rp", "W", "S1", "S2"}
 	var seqs [][]string
 	var gen func(cur []string)
 	gen = func(cur []string) {
 		if len(cur) > 0 {
 			last := cur[len(cur)-1]
-			if last == "R" || last == "Rn" || last == "W" { // a sequence is interesting when it ends with a call
+			if last == "R" || last == "Rn" || last == "Rp" || last == "W" { // a sequence is interesting when it ends with a call
 				seqs = append(seqs, append([]string(nil), cur...))
 			}
 		}
@@ -381,6 +387,13 @@ func c18Scenarios(tier string) []scenario {
 			if op == "Rn" && !hasDL {
 				continue
 			}
+			hasPartial := false
+			for _, o := range cur {
+				hasPartial = hasPartial || o == "Rp"
+			}
+			if op == "Rn" && hasPartial {
+				continue // a partly read message is pending: the read would not be one without data
+			}
 			gen(append(cur, op))
 		}
 	}
@@ -388,6 +401,11 @@ func c18Scenarios(tier string) []scenario {
 	if depth < 4 {
 		// a deadline and its reset on the same instant (the timer has fired, its
 		// callback has not run yet): the shortest programs that reach it have length 4
+		// a message left partly read (the adapter holds its reader), then a deadline
+		// that expires while no call is active
+		for _, call := range []string{"R", "Rp"} {
+			seqs = append(seqs, []string{"Rp", "RD1", "S2", call}, []string{"Rp", "RDp", "S1", call})
+		}
 		for _, d := range []string{"R", "W"} {
 			call := d
 			for _, reset := range []string{"D0", "D1"} {
